@@ -408,5 +408,221 @@ Section OneStruct.
         unfold in_body in Eb. destruct (find_member (f_name f) ms) eqn:Em; [discriminate|].
         eapply find_member_none; [exact Em | exact Hm' | symmetry; exact Hn'].
     Qed.
+
+    (* ---- what the entries are: the table's field results ---- *)
+    Lemma e1_nonfb : forall f, ann f = true -> fb f = false -> e1 f = E f.
+    Proof.
+      intros f Ha Hf. unfold e1, E. f_equal. apply hhm_step_result.
+      - unfold ann in Ha. destruct (f_anns f); [discriminate | discriminate].
+      - unfold fb in Hf. intros Hd. rewrite Hd in Hf. discriminate.
+    Qed.
+
+    Lemma e1_fb : forall f, fb f = true -> e1 f = (f_id f, FAbsent).
+    Proof.
+      intros f Hf. unfold e1, hhm_step. unfold fb in Hf.
+      destruct (map_field o false f rq); try discriminate. reflexivity.
+    Qed.
+
+    Lemma ph1_entries : forall L, (forall f, In f L -> ann f = true) ->
+      filter nonabs (map e1 L) = filter nonabs (map E (filter (fun f => negb (fb f)) L)).
+    Proof.
+      induction L as [|f r IH]; intros H; simpl; [reflexivity|].
+      rewrite IH by (intros g Hg; apply H; right; exact Hg).
+      destruct (fb f) eqn:Ef; simpl.
+      - rewrite (e1_fb f Ef). reflexivity.
+      - rewrite (e1_nonfb f (H f (or_introl eq_refl)) Ef). reflexivity.
+    Qed.
+
+    Lemma fb_decision : forall f, fb f = true -> map_field o false f rq = DFallbackToBody.
+    Proof. intros f H. unfold fb in H. destruct (map_field o false f rq); try discriminate. reflexivity. Qed.
+
+    Lemma FR_member : forall m ft, In m ms -> FieldByKey fs (fst m) = Some ft -> skipped ft = false ->
+      FR ft = conv_value conv_json rec (f_ty ft) (snd m).
+    Proof.
+      intros m ft Hm Hf Hs. pose proof (FieldByKey_some fs _ _ Hf) as [Hin Hn].
+      pose proof (find_member_of ms m (f_name ft) keys_nodup Hm (eq_sym Hn)) as Hfm.
+      unfold field_result. unfold skipped, B1 in Hs. fold (ann ft).
+      destruct (ann ft) eqn:Ea; simpl in Hs.
+      - apply negb_false_iff in Hs. rewrite (fb_decision ft Hs). rewrite Hfm. reflexivity.
+      - rewrite Hfm. reflexivity.
+    Qed.
+
+    Lemma B3_true : forall f, B3 f = true -> in_body ms f = false /\ B1 f = true.
+    Proof.
+      intros f H. unfold B3 in H. destruct (in_body ms f) eqn:Eb; simpl in H.
+      - unfold keep in H. destruct (ann f && negb (B1 f)) eqn:Es; simpl in H; [|discriminate].
+        apply andb_true_iff in Es. destruct Es as [_ Es]. apply negb_true_iff in Es. split; [|congruence]. congruence.
+      - split; [reflexivity | exact H].
+    Qed.
+
+    Lemma FR_unset : forall f, B3 f = true -> FR f = unset_rule o Spec rq conv_text conv_json rec root f.
+    Proof.
+      intros f H. destruct (B3_true f H) as [Hb H1]. unfold in_body in Hb.
+      destruct (find_member (f_name f) ms) as [j|] eqn:Em; [discriminate|].
+      unfold field_result. fold (ann f). unfold B1 in H1. destruct (ann f) eqn:Ea.
+      - rewrite (fb_decision f H1). rewrite Em. reflexivity.
+      - rewrite Em. unfold owed0 in H1. rewrite H1. reflexivity.
+    Qed.
+
+    Lemma entries2_char : forall ms', incl ms' ms ->
+      entries2 ms' = map E (filter keep (member_fields fs ms')).
+    Proof.
+      induction ms' as [|m r IH]; intros Hincl; [reflexivity|].
+      rewrite member_fields_unfold. cbn [entries2 flat_map]. fold (entries2 r).
+      rewrite IH by (intros x Hx; apply Hincl; right; exact Hx). rewrite member_fields_unfold.
+      destruct (FieldByKey fs (fst m)) as [ft|] eqn:Ef; [|reflexivity].
+      simpl. unfold keep. fold (skipped ft). destruct (skipped ft) eqn:Es; simpl; [reflexivity|].
+      f_equal. unfold E. f_equal. symmetry. apply FR_member; [apply Hincl; left; reflexivity | exact Ef | exact Es].
+    Qed.
+
+    (* ---- phase 3, portable: HandleRequires with the callback of doRecurse ---- *)
+    Definition P3 : list fdesc := filter B3 (sort_by_id fs).
+
+    Lemma marked_fields_char : marked_fields fs bm2 = P3.
+    Proof.
+      unfold marked_fields, P3. apply filter_ext_in. intros f Hf. apply bm2_char.
+      apply (proj1 (sort_by_id_in _ _)). exact Hf.
+    Qed.
+
+    Lemma P3_in_fs : forall f, In f P3 -> In f fs /\ B3 f = true.
+    Proof. intros f H. unfold P3 in H. apply filter_In in H. destruct H as [H Hb]. split; [apply (proj1 (sort_by_id_in _ _)); exact H | exact Hb]. Qed.
+
+    Lemma wres_loop_run : forall (step : fdesc -> wres) L buf,
+      (forall f, In f L -> step f = to_wres (f_id f) (FR f)) ->
+      wres_loop step L buf = run (map E L) buf.
+    Proof.
+      intros step. induction L as [|f r IH]; intros buf H; simpl; [reflexivity|].
+      rewrite (H f (or_introl eq_refl)). destruct (to_wres (f_id f) (FR f)); [|reflexivity].
+      apply IH. intros g Hg. apply H. right. exact Hg.
+    Qed.
+
+    (* ---- the order in which the code visits the fields, and the table's ---- *)
+    Definition CO : list fdesc := filter (fun f => negb (fb f)) hfs ++ filter keep (member_fields fs ms) ++ P3.
+    Notation PO := (processing_order fs ms).
+
+    Lemma MF_in : forall f, In f (member_fields fs ms) <-> In f fs /\ in_body ms f = true.
+    Proof. intros f. apply member_fields_in_iff. exact names_nodup. Qed.
+
+    Lemma PO_in_iff : forall f, In f PO <-> In f fs.
+    Proof.
+      intros f. split; [apply processing_order_in|]. intros Hin. unfold processing_order. rewrite !in_app_iff.
+      destruct (nonempty (f_anns f)) eqn:Ea.
+      - left. apply filter_In. split; assumption.
+      - destruct (in_body ms f) eqn:Eb.
+        + right; left. apply filter_In. split; [apply MF_in; split; assumption | rewrite Ea; reflexivity].
+        + right; right. apply sort_by_id_in. apply filter_In. split; [exact Hin | rewrite Ea, Eb; reflexivity].
+    Qed.
+
+    Lemma PO_nodup : NoDup PO.
+    Proof.
+      unfold processing_order. apply NoDup_app_intro.
+      - apply NoDup_filter. exact fs_nodup.
+      - apply NoDup_app_intro.
+        + apply NoDup_filter. apply member_fields_nodup. exact keys_nodup.
+        + eapply Permutation_NoDup; [apply Permutation_sym; apply sort_by_id_perm | apply NoDup_filter; exact fs_nodup].
+        + intros f H1 H2. apply filter_In in H1. destruct H1 as [H1 _]. apply MF_in in H1. destruct H1 as [_ Hb].
+          apply (proj1 (sort_by_id_in _ _)) in H2. apply filter_In in H2. destruct H2 as [_ H2].
+          rewrite Hb in H2. rewrite andb_false_r in H2. discriminate.
+      - intros f H1 H2. apply filter_In in H1. destruct H1 as [_ Ha]. apply in_app_iff in H2. destruct H2 as [H2|H2].
+        + apply filter_In in H2. destruct H2 as [_ H2]. rewrite Ha in H2. discriminate.
+        + apply (proj1 (sort_by_id_in _ _)) in H2. apply filter_In in H2. destruct H2 as [_ H2]. rewrite Ha in H2. discriminate.
+    Qed.
+
+    Lemma CO_in_fs : forall f, In f CO -> In f fs.
+    Proof.
+      intros f H. unfold CO in H. rewrite !in_app_iff in H. destruct H as [H|[H|H]].
+      - apply filter_In in H. destruct H as [H _]. apply hfs_in in H. apply H.
+      - apply filter_In in H. destruct H as [H _]. apply MF_in in H. apply H.
+      - apply P3_in_fs in H. apply H.
+    Qed.
+
+    Lemma keep_ann : forall f, ann f = true -> keep f = fb f.
+    Proof. intros f Ha. unfold keep, B1. rewrite Ha. simpl. rewrite negb_involutive. reflexivity. Qed.
+
+    Lemma CO_nodup : NoDup CO.
+    Proof.
+      unfold CO. apply NoDup_app_intro.
+      - apply NoDup_filter. unfold hfs, HttpMappingFields. apply NoDup_filter. exact fs_nodup.
+      - apply NoDup_app_intro.
+        + apply NoDup_filter. apply member_fields_nodup. exact keys_nodup.
+        + unfold P3. apply NoDup_filter. eapply Permutation_NoDup; [apply Permutation_sym; apply sort_by_id_perm | exact fs_nodup].
+        + intros f H1 H2. apply filter_In in H1. destruct H1 as [H1 _]. apply MF_in in H1. destruct H1 as [_ Hb].
+          apply P3_in_fs in H2. destruct H2 as [_ H2]. apply B3_true in H2. destruct H2 as [H2 _]. congruence.
+      - intros f H1 H2. apply filter_In in H1. destruct H1 as [H1 Hnf]. apply hfs_in in H1. destruct H1 as [_ Ha].
+        apply negb_true_iff in Hnf. apply in_app_iff in H2. destruct H2 as [H2|H2].
+        + apply filter_In in H2. destruct H2 as [_ H2]. rewrite (keep_ann f Ha) in H2. congruence.
+        + apply P3_in_fs in H2. destruct H2 as [_ H2]. apply B3_true in H2. destruct H2 as [_ H2].
+          unfold B1 in H2. rewrite Ha in H2. congruence.
+    Qed.
+
+    (* a declared field the code never visits has an absent result *)
+    Lemma not_visited_absent : forall f, In f fs -> ~ In f CO -> FR f = FAbsent.
+    Proof.
+      intros f Hin Hn. unfold CO in Hn. rewrite !in_app_iff in Hn.
+      destruct (ann f) eqn:Ea.
+      - exfalso. destruct (fb f) eqn:Ef.
+        + destruct (in_body ms f) eqn:Eb.
+          * apply Hn. right; left. apply filter_In. split; [apply MF_in; split; assumption | rewrite (keep_ann f Ea); exact Ef].
+          * apply Hn. right; right. unfold P3. apply filter_In. split; [apply sort_by_id_in; exact Hin|].
+            unfold B3. rewrite Eb. simpl. unfold B1. rewrite Ea. exact Ef.
+        + apply Hn. left. apply filter_In. split; [apply hfs_in; split; assumption | rewrite Ef; reflexivity].
+      - assert (Hk : keep f = true) by (unfold keep; rewrite Ea; reflexivity).
+        destruct (in_body ms f) eqn:Eb.
+        + exfalso. apply Hn. right; left. apply filter_In. split; [apply MF_in; split; assumption | exact Hk].
+        + destruct (owed0 f) eqn:Eo.
+          * exfalso. apply Hn. right; right. unfold P3. apply filter_In. split; [apply sort_by_id_in; exact Hin|].
+            unfold B3. rewrite Eb. simpl. unfold B1. rewrite Ea. exact Eo.
+          * unfold field_result. fold (ann f). rewrite Ea. unfold in_body in Eb.
+            destruct (find_member (f_name f) ms); [discriminate|]. unfold owed0 in Eo. rewrite Eo. reflexivity.
+    Qed.
+
+    Lemma CO_PO_perm : Permutation (filter nonabs (map E CO)) (filter nonabs (map E PO)).
+    Proof.
+      rewrite !filter_map_comm. apply Permutation_map.
+      apply NoDup_Permutation.
+      - apply NoDup_filter. exact CO_nodup.
+      - apply NoDup_filter. exact PO_nodup.
+      - intros f. rewrite !filter_In. split.
+        + intros [H Hq]. split; [apply PO_in_iff; apply CO_in_fs; exact H | exact Hq].
+        + intros [H Hq]. split; [|exact Hq]. apply PO_in_iff in H.
+          destruct (existsb (fun g => f_id g =? f_id f) CO) eqn:Ex.
+          * apply existsb_exists in Ex. destruct Ex as (g & Hg & He). apply Z.eqb_eq in He.
+            assert (g = f) by (apply same_id; [apply CO_in_fs; exact Hg | exact H | exact He]). subst. exact Hg.
+          * exfalso. assert (Hc : ~ In f CO).
+            { intros Hc. assert (existsb (fun g => f_id g =? f_id f) CO = true) by (apply existsb_exists; exists f; split; [exact Hc | apply Z.eqb_refl]). congruence. }
+            cbv beta in Hq. unfold E, nonabs in Hq. cbn [snd] in Hq. rewrite (not_visited_absent f H Hc) in Hq. discriminate.
+    Qed.
+
+    Lemma valid_in : forall f, In f fs -> valid_req f.
+    Proof. intros f H. rewrite Forall_forall in reqs_valid. apply reqs_valid. exact H. Qed.
+
+    Lemma coded_entries_perm :
+      Permutation (filter nonabs (map e1 hfs ++ entries2 ms ++ map E P3)) (filter nonabs (map E PO)).
+    Proof.
+      rewrite !filter_app.
+      rewrite (ph1_entries hfs) by (intros f Hf; apply hfs_in in Hf; apply Hf).
+      rewrite (entries2_char ms (incl_refl ms)).
+      rewrite <- !filter_app, <- !map_app. exact CO_PO_perm.
+    Qed.
+
+    (* ---- portable driver ---- *)
+    Lemma portable_run : forall n,
+      portable_struct o rq conv_text conv_json rec rec (S n) root fs ms = run (map e1 hfs ++ entries2 ms ++ map E P3) [].
+    Proof.
+      intros n. unfold portable_struct. rewrite handleHttpMappings_spec. fold hfs. rewrite ph1. rewrite !run_app.
+      destruct (run (map e1 hfs) []) as [b1|c]; [|reflexivity]. fold bm1. rewrite run_app.
+      rewrite (ph2 ms bm1 b1 keys_nodup) by (intros m ft Hm Hf; apply bm1_char; apply (FieldByKey_some fs _ _ Hf)).
+      destruct (run (entries2 ms) b1) as [b2|c]; [|reflexivity]. fold bm2.
+      cbv zeta. unfold HandleRequires. rewrite marked_fields_char. apply wres_loop_run.
+      intros f Hf. apply P3_in_fs in Hf. destruct Hf as [Hin Hb]. rewrite (FR_unset f Hb).
+      apply portable_unset_spec. apply valid_in. exact Hin.
+    Qed.
+
+    Theorem portable_struct_refines_table : forall n,
+      same_fields (wres_to_hres (portable_struct o rq conv_text conv_json rec rec (S n) root fs ms))
+                  (struct_result o Spec rq conv_text conv_json rec root false fs ms).
+    Proof.
+      intros n. rewrite portable_run. unfold struct_result. apply run_same_fields. exact coded_entries_perm.
+    Qed.
   End Root.
 End OneStruct.
